@@ -832,7 +832,21 @@ class Builder:
                 nd["src"] = cur
         if nd is None:
             return None
-        return self.add(nd)
+        new = self.add(nd)
+        if (
+            new is not None
+            and nd["op"] == "natural_join"
+            and cfg.get("drop_join_key_prob")
+            and any(x != y for x, y in nd["on"])
+            and g.boolean(cfg["drop_join_key_prob"])
+        ):
+            # the differently named key of one side is needed by the join but not by anything downstream
+            x, y = next((x, y) for x, y in nd["on"] if x != y)
+            victim = g.pick([x, y])
+            if len(schemas[new].names()) > 1:
+                nxt = self.add({"op": "drop_columns", "src": new, "cols": [victim]})
+                new = nxt if nxt is not None else new
+        return new
 
     def twin(self, node_id: int):
         """Add a sibling of `node_id`: same source(s), ONE parameter changed (reverse set, limit, a literal, an
